@@ -291,6 +291,7 @@ class Interp(object):
         return res
 
     cur_func = None
+    same_seq_same_length = False       # two complete loops over one abstract sequence see the same number of elements (0 / 1 / more)
 
     def const_default(self, expr, mod):
         try:
@@ -988,9 +989,13 @@ class Interp(object):
             self.budget -= 1
             if self.budget < 0:
                 raise AnalysisError("state budget exhausted in loop at %s" % self.loc(node))
-            # (a) sequence exhausted
-            if not (seq.nonempty and head.ghost.get(cnt_key) == 0):
+            known_n = head.ghost.get("#n:" + seq.name) if self.same_seq_same_length else None
+            cnt_now = head.ghost.get(cnt_key)
+            # (a) sequence exhausted (an earlier complete loop over the same sequence fixes whether it is empty)
+            if not (seq.nonempty and cnt_now == 0) and not (known_n in (1, GE2) and cnt_now == 0):
                 exits.append((head.fork(), seq, outer))
+            if known_n == 0 or (known_n == 1 and cnt_now == 1):
+                continue
             # (b) one more element
             base = head.fork()
             before = {name: base.frames[-1].get(name) for (name, _) in base.ghost.get(track_key, ())}
@@ -1043,6 +1048,7 @@ class Interp(object):
             self.emit(ex, ("loopexit", id(node), seq.name))
             if self.track_len:
                 ex.ghost["#len:" + seq.name] = ex.ghost.get(track_key, ())
+            if self.track_len or self.same_seq_same_length:
                 ex.ghost["#n:" + seq.name] = ex.ghost.get(cnt_key, 0)
             _restore(ex, cnt_key, outer[0], track_key, outer[1])
             final.append(ex)
